@@ -78,9 +78,10 @@ def main():
     eng.intercepts[SM2 + '.SignHashed'] = cap('SignHashed')
     eng.intercepts[SM2 + '.VerifyHashed'] = cap('VerifyHashed')
     wfail = []
-    for ML in ([0, 5, 70] if not thorough else [0, 1, 5, 31, 32, 33, 64, 70, 200]):
-        def run_w(e, ML=ML):
-            idb = sym_bytes(e, 'id', 16)
+    wcases = [(16, ML) for ML in ([0, 5, 70] if not thorough else [0, 1, 5, 31, 32, 33, 64, 70, 200])] + [(0, 5), ('nil', 5), (1, 0), (33, 5)]
+    for IDL, ML in wcases:
+        def run_w(e, ML=ML, IDL=IDL):
+            idb = sym_bytes(e, 'id', IDL if IDL != 'nil' else 0)
             xb = sym_bytes(e, 'x', 32)
             yb = sym_bytes(e, 'y', 32)
             mb = sym_bytes(e, 'm', ML)
@@ -88,6 +89,8 @@ def main():
             rb = sym_bytes(e, 'r', 32)
             sb = sym_bytes(e, 's', 32)
             ids, xs, ys, ms, ps, rs, ss = [e.new_slice(v) if v else e.new_slice([]) for v in (idb, xb, yb, mb, pb, rb, sb)]
+            if IDL == 'nil':
+                ids = NILSLICE
             rd = sm2model.new_reader(e, 1)
             d1 = e.digest_int(spec_pre(idb, xb, yb))
             zacells = [ByteOf(d1, j, 32) for j in range(32)]
@@ -131,7 +134,7 @@ def main():
         for r in eng.explore(run_w):
             nruns += 1
             if r:
-                wfail.append((ML, r))
+                wfail.append(((IDL, ML), r))
     secs = time.time() - t0
     ck.absorb(eng)
     if getattr(eng, 'budget_hit', None):
@@ -200,7 +203,7 @@ func TestVerifReplay(t *testing.T) {
         ev = int.from_bytes(sm3spec.digest(zav + bytes(msg)), 'big')
         r_, s_ = ref.sign_k(dv, ev, kv)
         src = '''package sm2
-import ("testing"; "bytes")
+import ("testing"; "bytes"; "github.com/bilibili/smgo/sm3")
 type verifReader struct{ b []byte; used int }
 func (r *verifReader) Read(p []byte) (int, error) { n := copy(p, r.b[r.used:]); r.used += n; return n, nil }
 func TestVerifReplay(t *testing.T) {
@@ -214,10 +217,20 @@ func TestVerifReplay(t *testing.T) {
 	if !ok || err != nil { t.Fatalf("VerifyZa rejects") }
 	r2, s2, err := SignZa(&verifReader{b: %s}, priv, za, msg)
 	if err != nil || !bytes.Equal(r2, r) || !bytes.Equal(s2, s) { t.Fatalf("SignZa differs") }
+	// the empty and the nil id are ids like any other (ENTL = 0): wrappers must agree with the digest-level functions at e = H(ZA(id)||M)
+	for _, eid := range [][]byte{{}, nil, {0x41}} {
+		zaE, err := ZA(eid, px, py); if err != nil { t.Fatalf("ZA(empty id): %%v", err) }
+		h := sm3.New(); h.Write(zaE); h.Write(msg); eE := h.Sum(nil)
+		rE, sE, err := Sign(eid, px, py, &verifReader{b: %s}, priv, msg)
+		if err != nil { t.Fatalf("Sign(id of %%d bytes): %%v", len(eid), err) }
+		if ok, err := VerifyHashed(px, py, eE, rE, sE); !ok || err != nil { t.Fatalf("Sign with an id of %%d bytes does not sign e = H(ZA(id)||M)", len(eid)) }
+		if ok, err := Verify(eid, px, py, msg, rE, sE); !ok || err != nil { t.Fatalf("Verify with an id of %%d bytes rejects the signature made for that id", len(eid)) }
+		if ok, _ := Verify(id, px, py, msg, rE, sE); ok { t.Fatalf("Verify accepts a signature made for a different id") }
+	}
 	long := make([]byte, 8192)
 	if _, _, err := Sign(long, px, py, &verifReader{b: %s}, priv, msg); err == nil { t.Fatalf("Sign accepts 8192-byte id") }
 	if ok, err := Verify(long, px, py, msg, r, s); ok || err == nil { t.Fatalf("Verify accepts 8192-byte id") }
-}''' % (go_bytes(idv), go_bytes(b32(pub[0])), go_bytes(b32(pub[1])), go_bytes(msg), go_bytes(b32(dv)), go_bytes(b32(kv)), go_bytes(b32(r_)), go_bytes(b32(s_)), go_bytes(b32(kv)), go_bytes(b32(kv)))
+}''' % (go_bytes(idv), go_bytes(b32(pub[0])), go_bytes(b32(pub[1])), go_bytes(msg), go_bytes(b32(dv)), go_bytes(b32(kv)), go_bytes(b32(r_)), go_bytes(b32(s_)), go_bytes(b32(kv)), go_bytes(b32(kv)), go_bytes(b32(kv)))
         ok, out, path = ck.go_test('sm2', src, name='wrappers')
         if ok is False:
             ck.record('wrappers', 'violated', 'entry points %s do not behave like the digest-level functions at e = SM3(ZA||M)' % names)
